@@ -410,6 +410,16 @@ def join_progs(ps):
 
 
 # ------------------------------------------------------------------ a scenario on one shared handle
+# path-based proxies with a persisted opener: kind -> (gzip file?, keep_file_open argument).  For a .gz path with
+# indexed_gzip installed the ImageOpener is persisted (one IndexedGzipFile for the proxy's lifetime) whatever
+# keep_file_open says — what nib.load('x.nii.gz').dataobj gives
+PATH_KINDS = {'kfo': (False, True), 'kfo_gz': (True, True), 'gz_def': (True, None), 'gz_false': (True, False)}
+
+
+class SkipScenario(Exception):
+    pass
+
+
 class Scenario:
     """Threads reading through proxies that share one file handle.
     threads: list of dict(proxy='orig'|'copy'|'copy2', reads=[ix...], outer=bool)
@@ -418,6 +428,7 @@ class Scenario:
 
     def __init__(self, fs, threads, kind='handle', mmap=None, nolock=False, p0=3, name=''):
         self.fs, self.threads, self.kind, self.nolock, self.p0, self.name = fs, threads, kind, nolock, p0, name
+        self.big = len(fs.bytes) > 200000       # too large to ship to the model runner as hex
         self.mmap = {'orig': True, 'copy': True, 'copy2': True}
         if mmap:
             self.mmap.update(mmap)
@@ -449,19 +460,22 @@ class Scenario:
             orig._lock = self.wlock
         else:
             path = os.path.join(workdir, 'kfo_%s_%d.dat%s' % (fs.dtype.str[1:], fs.offset,
-                                                               '.gz' if self.kind == 'kfo_gz' else ''))
+                                                               '.gz' if PATH_KINDS[self.kind][0] else ''))
             if not os.path.exists(path):
-                if self.kind == 'kfo_gz':
+                if PATH_KINDS[self.kind][0]:
                     import gzip
                     with gzip.open(path, 'wb') as g:
                         g.write(fs.bytes)
                 else:
                     with open(path, 'wb') as g:
                         g.write(fs.bytes)
-            orig = ArrayProxy(path, fs.par(), mmap=False, order=fs.order, keep_file_open=True)
+            kfo_arg = PATH_KINDS[self.kind][1]
+            orig = ArrayProxy(path, fs.par(), mmap=False, order=fs.order, **({} if kfo_arg is None else {'keep_file_open': kfo_arg}))
             orig._lock = self.wlock
             first = (0,) * len(fs.shape)
             do_read(orig, first)                 # lazily creates the persistent ImageOpener
+            if not hasattr(orig, '_opener'):
+                raise SkipScenario(f'{self.kind}: no persisted opener on this platform')
             opener = orig._opener
             self.fobj = WDelegate(opener.fobj, rec, self.wlock)
             opener.fobj = self.fobj
@@ -718,7 +732,7 @@ def enum_preempts(total, nthreads, maxp):
 S = slice
 
 
-def core_scenarios():
+def core_scenarios(thorough=False):
     """Seed-independent scenarios (exhaustive <= 2 pre-emptions each)."""
     A = FileSpec((33, 3, 2), '<f8', 16)
     B = FileSpec((130, 3, 2), '<i2', 32, slope=2.0, inter=1.0, fill=3)
@@ -736,9 +750,19 @@ def core_scenarios():
         Scenario(A, [dict(proxy='orig', reads=[S1]), dict(proxy='orig', reads=[M2b])], kind='kfo_gz', name='keep_file_open=True .gz'),
         Scenario(C, [dict(proxy='orig', reads=[(1, S(None, None, 2)), (0, 1)]), dict(proxy='copy', reads=['W']),
                      dict(proxy='copy2', reads=[(S(None), 2)])], name='3 threads C order big endian, 2+1+1 reads'),
+        Scenario(A, [dict(proxy='orig', reads=[M2]), dict(proxy='orig', reads=['W'])], kind='gz_def',
+                 name='.gz path, keep_file_open default (persisted IndexedGzipFile): one proxy, 2 threads'),
+        Scenario(A, [dict(proxy='orig', reads=[S1]), dict(proxy='orig', reads=[M2b]), dict(proxy='orig', reads=['W'])],
+                 kind='gz_false', name='.gz path, keep_file_open=False (persisted IndexedGzipFile): one proxy, 3 threads'),
+        Scenario(big_files()[1], [dict(proxy='orig', reads=[(S(None), S(None), 1)]), dict(proxy='copy', reads=[(S(0, 4), 0, 0)])],
+                 mmap={'orig': False, 'copy': False}, name='2 MiB segment racing a small read (proxy + copy)'),
+        Scenario(big_files()[1], [dict(proxy='orig', reads=[(S(None), S(None), S(None, None, 2))]),
+                                  dict(proxy='orig', reads=[(5, 5, 1), (S(0, 8), 3, 2)])],
+                 mmap={'orig': False}, name='two 2 MiB segments racing two small reads (same proxy)'),
+    ] + ([
         Scenario(B, [dict(proxy='orig', reads=[M2, S1b]), dict(proxy='copy', reads=['W', M2b]),
                      dict(proxy='copy2', reads=[S1, (Ellipsis, 0)], outer=True)], mmap={'copy': False},
-                 name='3 threads x 2 reads, one holding the RLock across both'),
+                 name='3 threads x 2 reads, one holding the RLock across both')] if thorough else []) + [
         Scenario(A, [dict(proxy='orig', reads=[M2, 'W']), dict(proxy='copy', reads=[S1, M2b])], kind='kfo',
                  name='keep_file_open=True path proxy and its copy() taken after a first read'),
         Scenario(A, [dict(proxy='orig', reads=['W']), dict(proxy='copy', reads=[M2]), dict(proxy='copy2', reads=[S1b])],
@@ -865,6 +889,8 @@ def evaluate(chk, sc, progs, wl_ok, single, run, mout, tag):
     dis = []
     eff, parts = impl_line(run, n)
     for gi, members in enumerate(run['groups']):
+        if sc.big:
+            break
         mo = mout.get(gi) if isinstance(mout, dict) else None
         if mo is None or not mo.startswith('ok '):
             dis.append(('model-run', str(mo)[:120], ''))
@@ -908,10 +934,11 @@ def run(chk: Check):
     chk.rule = ('(a) single-threaded call sequences: exhaustive index families + random basic indices (ints, '
                 'steps of either sign, empty / out-of-range / full slices, Ellipsis, newaxis) on F/C-order arrays of '
                 '4 dtypes x {proxy, copy, copy of copy, keep_file_open plain, keep_file_open .gz} x mmap on/off x '
-                'caller-held lock; (b) gated scheduler: ALL schedules with <= 2 pre-emptions of the 10 fixed scenarios '
+                'caller-held lock; (b) gated scheduler: ALL schedules with <= 2 pre-emptions of the fixed scenarios (13 quick, 14 thorough) '
                 '(2-3 threads x 1-2 reads: multi-segment, single-segment, whole-array with and without the memmap '
                 'probe; same proxy, copy, copy of copy, re-entrant caller lock, keep_file_open plain and .gz, and '
-                'keep_file_open path proxies with copy() / copy of copy taken AFTER a first read) plus '
+                'keep_file_open path proxies with copy() / copy of copy taken AFTER a first read, .gz path proxies with '
+                'keep_file_open default / False whose IndexedGzipFile opener is persisted, 2 MiB segments racing small reads) plus '
                 'random schedules of random scenarios; a case is non-trivial when it performs at least one file '
                 'call; schedules are distinct by their recorded thread-id sequence, call sequences by '
                 '(file, variant, index)')
@@ -944,7 +971,7 @@ def run(chk: Check):
     part_a(chk, rec, probe)
 
     # ================= (b) scheduled runs
-    scs = core_scenarios()
+    scs = core_scenarios(chk.tier == 'thorough')
     canary = canary_scenario()
     maxp = 2
     rng = chk.rng
@@ -955,7 +982,7 @@ def run(chk: Check):
     for _ in range(chk.n(12, 160)):
         fs = rng.choice(files)
         nt = rng.choice([2, 2, 3])
-        kind = rng.choice(['handle', 'handle', 'handle', 'kfo', 'kfo_gz'])
+        kind = rng.choice(['handle', 'handle', 'handle', 'kfo', 'kfo_gz', 'gz_def', 'gz_false'])
         ths = []
         for _ in range(nt):
             reads = []
@@ -974,6 +1001,10 @@ def run(chk: Check):
         rand_scs.append(Scenario(fs, ths, kind=kind, mmap={'orig': rng.random() < 0.5, 'copy': rng.random() < 0.5}
                                  if kind == 'handle' else None, p0=rng.randrange(0, 64), name='random'))
     all_scs = [canary] + scs + rand_scs
+    import nibabel.openers as _op
+    if not _op.HAVE_INDEXED_GZIP:       # without indexed_gzip a .gz path proxy opens a private handle per read
+        all_scs = [sc for sc in all_scs if sc.kind not in ('gz_def', 'gz_false')]
+        scs = [sc for sc in scs if sc.kind not in ('gz_def', 'gz_false')]
     progs, wl = model_programs(chk, all_scs, probe)
     singles = [runner.single(sc) for sc in all_scs]
 
@@ -1021,6 +1052,8 @@ def run(chk: Check):
         sc = all_scs[si]
         sched = '[' + ','.join(str(t) for t in r['trace']) + ']'
         for gi, members in enumerate(r['groups']):
+            if sc.big:
+                continue          # compared through call sequences and results only
             pg = [p if i in members else '-' for i, p in enumerate(progs[si])]
             lines.append(f"{j}.{gi} run {hx(sc.fs.bytes)} {sc.p0} {sched} " + ' '.join(pg))
     mout_all = run_model(PROP, lines)
@@ -1089,12 +1122,11 @@ def run(chk: Check):
 # ---------------------------------------------------------------------------------------------
 def variants_for(fs, rec, workdir, which):
     """(name, proxy, wlock, fobj, close) for one variant of a file."""
-    kind = {'kfo': 'kfo', 'kfo_gz': 'kfo_gz'}.get(which, 'handle')
+    kind = which if which in PATH_KINDS else 'handle'
     sc = Scenario(fs, [], kind=kind, mmap={'orig': which != 'orig_nommap', 'copy': which != 'copy_nommap',
                                            'copy2': True} if kind == 'handle' else None)
     sc.build(rec, workdir)
-    name = {'orig': 'orig', 'orig_nommap': 'orig', 'copy': 'copy', 'copy_nommap': 'copy', 'copy2': 'copy2',
-            'kfo': 'orig', 'kfo_gz': 'orig'}[which]
+    name = {'copy': 'copy', 'copy_nommap': 'copy', 'copy2': 'copy2'}.get(which, 'orig')
     return sc, sc.proxies[name], sc.mmap[name]
 
 
@@ -1109,18 +1141,33 @@ def fixed_indices(shape):
     return out
 
 
+def big_files():
+    return [FileSpec((1048577, 2), '|u1', 7, fill=1),            # segments of 1 MiB + 1
+            FileSpec((1024, 1024, 3), '<i2', 352, fill=2),       # 2 MiB planes
+            FileSpec((786432, 2), '<f4', 0, fill=3)]             # 3 MiB columns
+
+
+BIG_INDICES = [[(S(None), 1), (S(None), 0), (S(1, None), 1)],
+               [(S(None), S(None), 1), (S(None), S(None), S(None, None, 2)), (S(None), S(None), S(0, 2))],
+               [(S(None), 0), (S(None), 1)]]
+
+
 def part_a(chk, rec, probe):
     """Single-threaded: recorded call list == model program, every file call under the shared lock."""
     rng = chk.rng
     files = [FileSpec((33, 3, 2), '<f8', 16), FileSpec((130, 3, 2), '<i2', 32, slope=2.0, inter=1.0, fill=3),
              FileSpec((2, 3, 33), '>f8', 8, order='C', fill=9), FileSpec((17, 2, 2, 2), '<c16', 0, fill=4),
              FileSpec((40, 7), '<u1', 5, fill=1), FileSpec((300,), '<f4', 12, fill=2), FileSpec((4, 0, 3), '<i4', 4)]
+    import nibabel.openers as _op
     variants = ['orig', 'orig_nommap', 'copy', 'copy_nommap', 'copy2', 'kfo', 'kfo_gz']
+    if _op.HAVE_INDEXED_GZIP:
+        variants += ['gz_def', 'gz_false']
+    chk.extra['have_indexed_gzip'] = bool(_op.HAVE_INDEXED_GZIP)
     cases = []
     for fi, fs in enumerate(files):
         idxs = [ix for ix in fixed_indices(fs.shape) if ix == 'W' or sum(1 for s in ix if s is not None and s is not Ellipsis) <= len(fs.shape)]
         for vi, v in enumerate(variants):
-            if fs.arr.size == 0 and v.startswith('kfo'):
+            if fs.arr.size == 0 and v in PATH_KINDS:
                 continue
             for k, ix in enumerate(idxs):
                 cases.append((fi, v, ix, (k + vi) % 5 == 4))
@@ -1128,9 +1175,16 @@ def part_a(chk, rec, probe):
     for _ in range(nrand):
         fi = rng.randrange(len(files))
         v = rng.choice(variants)
-        if files[fi].arr.size == 0 and v.startswith('kfo'):
+        if files[fi].arr.size == 0 and v in PATH_KINDS:
             v = 'orig'
         cases.append((fi, v, gen_index(rng, files[fi].shape), rng.random() < 0.15))
+    # LARGE segments (> 1 MiB): still acquire; seek; ONE read of the full segment length; release per segment
+    nsmall = len(files)
+    files += big_files()
+    for fi in range(nsmall, len(files)):
+        for v in ('orig', 'copy_nommap', 'kfo'):
+            for ix in BIG_INDICES[fi - nsmall]:
+                cases.append((fi, v, ix, False))
     # model programs
     lines = []
     built = {}
@@ -1190,7 +1244,8 @@ def part_a(chk, rec, probe):
         p = out2[f'{ci}.o'][3:] if outer else out[str(ci)][3:]
         exp[ci] = p
         lines3.append(f'{ci}.w wl {p}')
-        lines3.append(f'{ci}.s solo {hx(files[fi].bytes)} 0 {p}')
+        if len(files[fi].bytes) <= 200000:
+            lines3.append(f'{ci}.s solo {hx(files[fi].bytes)} 0 {p}')
     out3 = run_model(PROP, lines3)
     for ci, (fi, v, ix, outer) in enumerate(cases):
         o = obs[ci]
@@ -1219,6 +1274,20 @@ def part_a(chk, rec, probe):
         if out3.get(f'{ci}.w') != 'ok 1':
             dis.append(('program not well-locked per model', p[:200], out3.get(f'{ci}.w')))
         solo = out3.get(f'{ci}.s', '')
+        if len(fs.bytes) > 200000 and not o['err']:
+            # too large for the model runner: harness twin of `solo` (bytes at the program's seek/read positions)
+            pos, want_b = 0, []
+            for t in p.split(','):
+                if t[0] == 'S':
+                    pos = int(t[1:])
+                elif t[0] == 'E':
+                    pos = len(fs.bytes)
+                elif t[0] in 'ri':
+                    want_b.append(fs.bytes[pos:pos + int(t[1:])])
+                    pos += len(want_b[-1])
+            if b''.join(want_b) != o['data']:
+                dis.append(('bytes read (large file)', f'{sum(map(len, want_b))} bytes at the program positions', f"{len(o['data'])} bytes, different"))
+            chk.tagc('large_segment_case')
         if solo.startswith('ok') and bytes.fromhex(solo[3:].replace(';', '').replace('x', '')) != o['data'] and not o['err']:
             dis.append(('bytes read', solo[:120], hx(o['data'])[:120]))
         if pred:
@@ -1231,7 +1300,7 @@ def part_a(chk, rec, probe):
                               predicate='model and implementation disagree at ' + dis[0][0] +
                               '; all file calls were made under the lock', found_input=False,
                               theorem='correspondence C14/Model.v segs_prog/whole_prog <-> read_segments/array_from_file')
-        if not o['value_ok'] and not o['err'] and (v in ('orig', 'orig_nommap', 'kfo', 'kfo_gz') or fs.order == 'F'):
+        if not o['value_ok'] and not o['err'] and (v in ('orig', 'orig_nommap') or v in PATH_KINDS or fs.order == 'F'):
             nv = chk.extra.setdefault('note_values', {'what': 'single-threaded read differs from NumPy indexing '
                                                               '(C03/C06 subject, not C14)',
                                                       'count': 0, 'first': case})
@@ -1279,6 +1348,7 @@ def part_lock_kind(chk, workdir=None):
                       ('path keep_file_open=True', lambda: ArrayProxy(path, fs.par(), mmap=False, keep_file_open=True)),
                       ('.gz path keep_file_open=True', lambda: ArrayProxy(gzp, fs.par(), mmap=False, keep_file_open=True)),
                       ('.gz path keep_file_open=False', lambda: ArrayProxy(gzp, fs.par(), mmap=False, keep_file_open=False)),
+                      ('.gz path keep_file_open default', lambda: ArrayProxy(gzp, fs.par(), mmap=False)),
                       ('path keep_file_open=False', lambda: ArrayProxy(path, fs.par(), mmap=False, keep_file_open=False))]:
         p0 = mk()
         fam = {'original': p0, 'copy before any read': p0.copy()}
